@@ -34,16 +34,27 @@ static NEXT_UID: AtomicU64 = AtomicU64::new(1);
 #[inline]
 pub fn tick(class: usize) {
     COUNTS.with(|c| c[class].set(c[class].get() + 1));
+    // cascade: once the armed panic has fired, the very next user callback of ANY class made while that panic is still
+    // unwinding panics too (only code that runs user callbacks from a destructor / drop guard ever gets there; a panic in a
+    // destructor during cleanup aborts the process, which the driver reports)
+    if CASCADE.with(|c| c.get()) == 2 && std::thread::panicking() {
+        CASCADE.with(|c| c.set(0));
+        panic!("{} class={} (second panic, raised while the first one unwinds)", INJECTED, CLASS_NAMES[class]);
+    }
     FUSE.with(|f| {
         let (c, n) = f.get();
         if c == class && n > 0 {
             f.set((c, n - 1));
             if n == 1 {
+                CASCADE.with(|k| if k.get() == 1 { k.set(2) });
                 panic!("{} class={}", INJECTED, CLASS_NAMES[class]);
             }
         }
     });
 }
+thread_local! { static CASCADE: std::cell::Cell<u8> = std::cell::Cell::new(0); }
+/// 1 = armed (becomes 2 when the fuse fires), 0 = off
+pub fn set_cascade(on: bool) { CASCADE.with(|c| c.set(on as u8)); }
 
 pub fn counts() -> [u64; NCLASS] {
     COUNTS.with(|c| {
@@ -61,7 +72,7 @@ pub fn delta(a: &[u64; NCLASS], b: &[u64; NCLASS]) -> [u64; NCLASS] {
 
 /// Arm the fuse: the n-th (1-based) callback of `class` from now on panics.
 pub fn arm(class: usize, n: u64) { FUSE.with(|f| f.set((class, n))); }
-pub fn disarm() { FUSE.with(|f| f.set((usize::MAX, 0))); }
+pub fn disarm() { FUSE.with(|f| f.set((usize::MAX, 0))); CASCADE.with(|c| c.set(0)); }
 pub fn fuse_pending() -> bool { FUSE.with(|f| f.get().1 > 0) }
 
 // ---------------------------------------------------------------- drop ledger
@@ -96,6 +107,15 @@ fn new_uid() -> u64 {
         l.created_total += 1;
     }));
     uid
+}
+
+/// Formatting reads the object: doing so after it was dropped is a read of moved-out / freed memory.
+fn note_format(uid: u64) {
+    let _ = crate::valloc::own(|| LEDGER.try_with(|l| {
+        let mut l = match l.try_borrow_mut() { Ok(l) => l, Err(_) => return };
+        let known = uid >= l.base && ((uid - l.base) as usize) < l.state.len();
+        if known && l.state[(uid - l.base) as usize] >= 2 { let m = format!("object uid {} was formatted (Debug) after it had been dropped", uid); l.errors.push(m); }
+    }));
 }
 
 /// Records the drop; returns false if this uid had already been dropped (a double drop).
@@ -192,7 +212,7 @@ impl HeapSize for TKey {
 }
 
 impl fmt::Debug for TKey {
-    fn fmt(&self, f: &mut fmt::Formatter<'_>) -> fmt::Result { write!(f, "K{}u{}", self.id, self.uid) }
+    fn fmt(&self, f: &mut fmt::Formatter<'_>) -> fmt::Result { note_format(self.uid); let _ = self.check_live(); write!(f, "K{}u{}", self.id, self.uid) }
 }
 
 /// Borrowed form of a key: same hash and equality as TKey.
@@ -241,7 +261,7 @@ impl HeapSize for TVal {
 }
 
 impl fmt::Debug for TVal {
-    fn fmt(&self, f: &mut fmt::Formatter<'_>) -> fmt::Result { write!(f, "V{}", self.uid) }
+    fn fmt(&self, f: &mut fmt::Formatter<'_>) -> fmt::Result { note_format(self.uid); let _ = self.check_live(); write!(f, "V{}", self.uid) }
 }
 
 // ---------------------------------------------------------------- hashers
